@@ -145,6 +145,31 @@ func checkC13(w *Worker) {
 		x.Case(fmt.Sprint("slow", which, n), true)
 		verify(x, c, want, dec, []string{"log", "database", "database-resolved"}[which])
 	})
+	// a heading that occurs more than once in the book - directly below itself, with another recipe in between, three times:
+	// the raw export has one row per entry of the file, in file order; the resolved export has every pair once
+	w.Explore("repeated-headings", ExploreOpts{ShardDepth: 2}, func(x *Exec) {
+		shape := x.Choose(4, "input:shape")
+		resolved := x.Choose(2, "input:export") == 1
+		book := [][]absRecipe{
+			{{"soup", []absIng{{"salt", 1}}}, {"soup", []absIng{{"water", 2}, {"salt", 3}}}, {"bread", []absIng{{"flour", 4}}}},
+			{{"soup", []absIng{{"salt", 1}}}, {"bread", []absIng{{"flour", 4}, {"soup", 2}}}, {"soup", []absIng{{"water", 2}, {"salt", 3}}}},
+			{{"soup", []absIng{{"salt", 1}}}, {"bread", []absIng{{"flour", 4}}}, {"soup", []absIng{{"water", 2}}}, {"apple", []absIng{{"cal", 1}}}, {"soup", []absIng{{"salt", 5}, {"water", 1}}}},
+			{{"a, \"b\" c", []absIng{{"x", 1}}}, {"z", []absIng{{"a, \"b\" c", 2}}}, {"a, \"b\" c", []absIng{{"y", 2}}}, {"z", []absIng{{"x", 1}}}},
+		}[shape]
+		files := map[string]string{"food.yaml": renderBook(absBook(book))}
+		x.Case(fmt.Sprint("repeated", shape, resolved), true)
+		if resolved {
+			c13UniqueResolvedRows(x, appCase{Args: []string{"csv", "database-resolved"}, Files: files})
+			return
+		}
+		var want []csvWant
+		for _, r := range book {
+			for _, i := range r.Ings {
+				want = append(want, csvWant{r.Name, i.Name, rat(i.Val)})
+			}
+		}
+		verify(x, appCase{Args: []string{"csv", "database"}, Files: files}, want, 2, "database")
+	})
 	// calendar: every day around every turn of the year 2018..2027 (ISO week-years differ from calendar years there), the
 	// ends of February, and far-away years; one row per day, dates ISO formatted
 	w.Explore("csv-log-calendar", ExploreOpts{ShardDepth: 1}, func(x *Exec) {
@@ -249,7 +274,8 @@ func checkC13(w *Worker) {
 			verify(x, appCase{Args: []string{"csv", "database"}, Files: files}, want, 2, "database")
 		default:
 			if sc.Name == "repeated-heading-in-the-book" {
-				x.Case("skip: which of two definitions counts is not C13's business", false)
+				// which of two definitions counts is not C13's business; that a recipe has ONE set of rows is
+				c13UniqueResolvedRows(x, appCase{Args: []string{"csv", "database-resolved"}, Files: files})
 				return
 			}
 			res := refResolve(sc.Book)
@@ -477,4 +503,34 @@ func c13Large(which, n int) (appCase, []csvWant, int) {
 		c = appCase{Args: []string{"csv", cmd}, Files: map[string]string{"food.yaml": sb.String()}}
 	}
 	return c, want, dec
+}
+
+// c13UniqueResolvedRows: the resolved export is well-formed, sorted by recipe then element, and holds every
+// (recipe, element) pair once - whatever the book looks like
+func c13UniqueResolvedRows(x *Exec, c appCase) {
+	r := runApp(c)
+	x.Obs(r.Key())
+	rep := map[string]interface{}{"cmd": c.shell(), "observed": r.String()}
+	if r.Failed || r.Panic != "" {
+		x.Violate("C13|database-resolved|failed", fmt.Sprintf("`%s`: %s", c.shell(), r.String()), rep)
+		return
+	}
+	recs, err := parseCSV(r.Stdout)
+	if err != nil {
+		x.Violate("C13|database-resolved|not-rfc4180", fmt.Sprintf("`%s`: %v", c.shell(), err), rep)
+		return
+	}
+	prev := ""
+	for i, rec := range recs {
+		if len(rec) != 3 {
+			x.Violate("C13|database-resolved|wrong-field-count", fmt.Sprintf("`%s`: row %d: %q", c.shell(), i+1, rec), rep)
+			return
+		}
+		key := rec[0] + "\x00" + rec[1]
+		if i > 0 && !(prev < key) {
+			x.Violate("C13|database-resolved|row-twice-or-out-of-order", fmt.Sprintf("`%s`: row %d (%q, %q) repeats or precedes the row before it\n%s", c.shell(), i+1, rec[0], rec[1], r.Stdout), rep)
+			return
+		}
+		prev = key
+	}
 }
